@@ -1,0 +1,302 @@
+//go:build verif
+
+package kernel
+
+// Deterministic-simulation support (build tag verif). This file only adds
+// exported wrappers around unexported kernel functions so that an external
+// simulator can drive the real loop bodies one iteration at a time without
+// any kernel goroutine running. Nothing here is compiled into normal builds.
+
+import (
+	"sort"
+	"time"
+
+	"github.com/MixinNetwork/mixin/common"
+	"github.com/MixinNetwork/mixin/config"
+	"github.com/MixinNetwork/mixin/crypto"
+	"github.com/MixinNetwork/mixin/kernel/internal"
+	"github.com/MixinNetwork/mixin/kernel/internal/clock"
+	"github.com/MixinNetwork/mixin/p2p"
+)
+
+const simEnabled = true
+
+var simStepMode = false
+
+// SimSetStepMode turns chain loops into single-iteration calls and stops
+// Chain.bootLoops from spawning goroutines.
+func SimSetStepMode(on bool) {
+	simStepMode = on
+	internal.ToggleMockRunAggregators(on)
+}
+
+func SimSetClock(f func() time.Time) {
+	clock.SimSetNow(f)
+}
+
+func (node *Node) SimInitPeer() {
+	node.Peer = p2p.NewPeer(node, node.IdForNetwork, "sim", true)
+}
+
+// SimStop releases the background statistics goroutine of the node.
+func (node *Node) SimStop() {
+	select {
+	case <-node.done:
+	default:
+		close(node.done)
+	}
+}
+
+func (node *Node) SimChainIDs() []crypto.Hash {
+	node.chains.RLock()
+	defer node.chains.RUnlock()
+	ids := make([]crypto.Hash, 0, len(node.chains.m))
+	for id := range node.chains.m {
+		ids = append(ids, id)
+	}
+	sort.Slice(ids, func(i, j int) bool { return ids[i].String() < ids[j].String() })
+	return ids
+}
+
+func (node *Node) SimChain(id crypto.Hash) *Chain {
+	return node.getChain(id)
+}
+
+func (node *Node) SimSelfChain() *Chain {
+	return node.chain
+}
+
+// SimChainActive mirrors the condition under which bootLoops starts loops.
+func (node *Node) SimChainActive(id crypto.Hash) bool {
+	chain := node.getChain(id)
+	if chain == nil {
+		return false
+	}
+	rn := node.GetRemovedOrCancelledNode(chain.ChainId, node.GraphTimestamp)
+	threshold := uint64(config.KernelNodeAcceptPeriodMaximum)
+	if rn != nil && rn.Timestamp+threshold < node.GraphTimestamp {
+		return false
+	}
+	return true
+}
+
+func (node *Node) SimStepQueue() int {
+	return node.popAndProcessCacheQueue()
+}
+
+// SimStepChainPoll runs exactly one iteration of the real QueuePollSnapshots.
+func (node *Node) SimStepChainPoll(id crypto.Hash) {
+	chain := node.getChain(id)
+	if chain == nil {
+		return
+	}
+	chain.plc = make(chan struct{})
+	chain.running = true
+	chain.QueuePollSnapshots()
+	chain.running = true
+}
+
+var simFinalRetry = make(map[*Chain]*CosiAction)
+
+// SimStepChainFinal drains the final actions ring through the real
+// appendFinalSnapshot, as ConsumeFinalActions does.
+func (node *Node) SimStepChainFinal(id crypto.Hash) int {
+	chain := node.getChain(id)
+	if chain == nil {
+		return 0
+	}
+	chain.running = true
+	count := 0
+	for {
+		ps := simFinalRetry[chain]
+		delete(simFinalRetry, chain)
+		if ps == nil {
+			ps = chain.finalActionsRing.Poll()
+		}
+		if ps == nil {
+			return count
+		}
+		retry, err := chain.appendFinalSnapshot(ps.PeerId, ps.Snapshot)
+		if err != nil {
+			panic(err)
+		}
+		if retry {
+			simFinalRetry[chain] = ps
+			return count
+		}
+		count++
+	}
+}
+
+func (node *Node) SimForget() {
+	for c := range simFinalRetry {
+		if c.node == node {
+			delete(simFinalRetry, c)
+		}
+	}
+}
+
+func (node *Node) SimStepWork(id crypto.Hash) {
+	chain := node.getChain(id)
+	if chain == nil {
+		return
+	}
+	chain.wlc = make(chan struct{})
+	chain.running = true
+	chain.AggregateMintWork()
+	chain.running = true
+}
+
+func (node *Node) SimStepSpace(id crypto.Hash) {
+	chain := node.getChain(id)
+	if chain == nil {
+		return
+	}
+	chain.slc = make(chan struct{})
+	chain.running = true
+	chain.AggregateRoundSpace()
+	chain.running = true
+}
+
+func (node *Node) SimMintTick() error {
+	cur, err := node.persistStore.ReadCustodian(node.GraphTimestamp)
+	if err != nil {
+		panic(err)
+	}
+	return node.tryToMintUniversal(cur)
+}
+
+func (node *Node) SimElectionTick() error {
+	chain := node.BootChain(node.IdForNetwork)
+	if chain.State == nil {
+		return chain.tryToSendAcceptTransaction()
+	}
+	return node.tryToSendRemoveTransaction()
+}
+
+// SimSendGraph is one iteration of sendGraphToConsensusNodesAndPeers with a
+// deterministic peer order.
+func (node *Node) SimSendGraph() {
+	nodes := node.NodesListWithoutState(clock.NowUnixNano(), true)
+	neighbors := node.Peer.Neighbors()
+	peers := make(map[crypto.Hash]bool)
+	for _, cn := range nodes {
+		peers[cn.IdForNetwork] = true
+	}
+	for _, p := range neighbors {
+		peers[p.IdForNetwork] = true
+	}
+	ids := make([]crypto.Hash, 0, len(peers))
+	for id := range peers {
+		ids = append(ids, id)
+	}
+	sort.Slice(ids, func(i, j int) bool { return ids[i].String() < ids[j].String() })
+	for _, id := range ids {
+		_ = node.Peer.SendGraphMessage(id)
+	}
+}
+
+type SimChainPools struct {
+	CachePool   int
+	FinalRing   int
+	FinalUnmet  int
+	Aggregators int
+	Verifiers   int
+}
+
+func (chain *Chain) SimPools() SimChainPools {
+	p := SimChainPools{
+		CachePool:   len(chain.CachePool),
+		FinalRing:   len(chain.finalActionsRing),
+		Aggregators: len(chain.CosiAggregators),
+		Verifiers:   len(chain.CosiVerifiers),
+	}
+	if simFinalRetry[chain] != nil {
+		p.FinalRing++
+	}
+	for i := range 2 {
+		round := chain.FinalPool[(chain.FinalIndex+i)%FinalPoolSlotsLimit]
+		if round == nil {
+			continue
+		}
+		for j := range round.Size {
+			if !round.Snapshots[j].finalized {
+				p.FinalUnmet++
+			}
+		}
+	}
+	return p
+}
+
+func (chain *Chain) SimConsensusNodes(round, ts uint64) []*CNode {
+	return chain.consensusNodes(round, ts)
+}
+
+func (chain *Chain) SimVerifyFinalization(s *common.Snapshot) ([]crypto.Hash, bool) {
+	return chain.verifyFinalization(s)
+}
+
+func (chain *Chain) SimCacheSnapshots() []*common.Snapshot {
+	if chain.State == nil || chain.State.CacheRound == nil {
+		return nil
+	}
+	return append([]*common.Snapshot{}, chain.State.CacheRound.Snapshots...)
+}
+
+func (node *Node) SimElect(operation byte, ts uint64) crypto.Hash {
+	return node.electSnapshotNode(operation, ts)
+}
+
+func (node *Node) SimRemovingAt(ts uint64) *CNode {
+	return node.removingOrSlashingNodeAt(ts)
+}
+
+func (node *Node) SimRemoveCandidate(self crypto.Hash, ts uint64) (*CNode, error) {
+	return node.checkRemovePossibility(self, ts, nil)
+}
+
+func (node *Node) SimAcceptHour(ts uint64) bool { return node.checkConsensusAcceptHour(ts) }
+func (node *Node) SimPledgeHour(ts uint64) bool { return node.checkConsensusPledgeHour(ts) }
+
+func (node *Node) SimTopoSeq() uint64 { return node.TopoCounter.seq }
+
+func (node *Node) SimAllNodesWithState() []*CNode {
+	return append([]*CNode{}, node.allNodesSortedWithState...)
+}
+
+func (node *Node) SimIsGenesis(id crypto.Hash) bool { return node.genesisNodesMap[id] }
+
+func (node *Node) SimBuildMint(ts uint64) *common.VersionedTransaction {
+	cur, err := node.persistStore.ReadCustodian(ts)
+	if err != nil {
+		panic(err)
+	}
+	return node.buildUniversalMintTransaction(cur, ts, false)
+}
+
+func (node *Node) SimBuildRemove(self crypto.Hash, ts uint64) (*common.VersionedTransaction, error) {
+	return node.buildNodeRemoveTransaction(self, ts, nil)
+}
+
+func (node *Node) SimLastConsensusSnapshot() *common.Snapshot {
+	s, _ := node.ReadLastConsensusSnapshotWithHack()
+	return s
+}
+
+func (node *Node) SimValidateSnapshotTransactions(s *common.Snapshot, finalized bool) (int, int, error) {
+	found, missing, err := node.validateSnapshotTransaction(s, finalized)
+	return len(found), len(missing), err
+}
+
+// SimQueueSelfSnapshot appends a self proposal holding the given cached
+// transactions to the node's own chain, as the queue worker does.
+func (node *Node) SimQueueSelfSnapshot(hashes []crypto.Hash) error {
+	s := &common.Snapshot{
+		Version: common.SnapshotVersionCommonEncoding,
+		NodeId:  node.IdForNetwork,
+	}
+	for _, h := range hashes {
+		s.AddTransaction(h)
+	}
+	return node.chain.AppendSelfEmpty(s)
+}
